@@ -205,6 +205,45 @@ def cm_systematic():
     return out
 
 
+def cm_repair_cases():
+    """(name, tree, options): the paths touched by the four repairs of cm.rs (repo_fix_cm_1..4), with fixed
+    options so that every run exercises them: a control byte first on a line inside containers (with and
+    without wrapping: the column is counted once), a literal block that ends its line followed by a blank
+    line under `>` / list / footnote prefixes, an empty destination with a title, a breakable space before
+    `-`, `+`, `=` and a digit"""
+    out = []
+    q = lambda *ch: _n("BlockQuote", "", ch)
+    for w in (0, 1, 8, 12):
+        o = {"width": w} if w else {}
+        for t in ("\x01", "\x1f x", "a \x02 b \x03 c \x04 d", "\t\x0b"):
+            out.append(("ctrl-line-start", _n("Document", "", [q(_para(_text("I"), _n("SoftBreak"), _text(t)))]), o))
+            out.append(("ctrl-line-start", _n("Document", "", [q(q(_para(_text(t))))]), o))
+            out.append(("ctrl-line-start", _n("Document", "", [_list(True, 9, False, _item(_para(_text(t), _n("LineBreak"), _text(t))))]), o))
+        for t in ("a - b", "a + b", "a = b", "a 1 b", "a  - b", "a -b =c +d", "aa bb - cc", "a -", "a *", "a ~~~", "- - -", "a - b + c = d 2 e f"):
+            out.append(("wrap-before-marker", _n("Document", "", [_para(_text(t))]), o))
+            out.append(("wrap-before-marker", _n("Document", "", [q(_para(_text(t), _n("SoftBreak"), _text("- x")))]), o))
+    for lit in ("<a>\n", "<a>", "<p>\n\nx\n</p>\n", "\n"):
+        hb = _n("HtmlBlock", "6 " + hx(lit))
+        for tail in ([_para(_text("."))], [hb], [_n("ThematicBreak")], []):
+            out.append(("literal-then-blank", _n("Document", "", [q(hb, *tail)]), {}))
+            out.append(("literal-then-blank", _n("Document", "", [q(q(hb), *tail)]), {}))
+            out.append(("literal-then-blank", _n("Document", "", [q(_list(False, 1, False, _item(hb, *tail)), *tail)]), {}))
+            out.append(("literal-then-blank", _n("Document", "", [q(_list(False, 1, True, _item(hb, *tail)), *tail)]), {}))
+            out.append(("literal-then-blank", _n("Document", "", [_list(False, 1, False, _item(q(hb, *tail), *tail))]), {}))
+            out.append(("literal-then-blank", _n("Document", "", [_n("FootnoteDefinition", "%s 1" % hx("n"), [hb] + tail)]), {}))
+            out.append(("literal-then-blank", _n("Document", "", [_n("Alert", "0 n 0 0 0", [hb] + tail)]), {}))
+    for lit in ("abc\n", "abc", "a\nb\n"):
+        cb = _n("CodeBlock", "0 96 3 0 - " + hx(lit))
+        out.append(("literal-then-blank", _n("Document", "", [q(_para(_text("p")), cb, _para(_text(".")))]), {}))
+        out.append(("literal-then-blank", _n("Document", "", [q(cb, cb)]), {"prefer_fenced": True}))
+    for u in ("", "/u"):
+        for ti in ("", "t", "a \"q\" b"):
+            for w in (0, 1):
+                out.append(("empty-dest-title", _n("Document", "", [q(_para(_n("Link", "%s %s" % (hx(u), hx(ti)), [_text("x")]), _n("Image", "%s %s" % (hx(u), hx(ti)), [])))]),
+                            {"width": w} if w else {}))
+    return out
+
+
 def cm_shape_violations():
     """trees on which the formatter panics (or would, were the subtraction checked)"""
     cell = _n("TableCell")
@@ -372,6 +411,9 @@ def tie_cm(c, n_docs, n_synth, malformed=0.1, opts_fn=None):
     c.cm_mismatches = mism
     synth = synth_trees(rng, n_synth)
     sopts = [opts_for_tree(rng) for _ in synth]
+    for name, t, o in cm_repair_cases():
+        synth.append((name, t))
+        sopts.append(docgen.opts_token(o))
     smism, _, _ = run_synth(c, synth, sopts)
     c.cm_synth_mismatches = smism
     shape_checks(c)
